@@ -73,11 +73,30 @@ func runHistory(w *world, j *judge, seed uint64, shard, no int) error {
 	for step = 0; step < steps; step++ {
 		op := r.Intn(100)
 		switch {
-		case op < 8:
+		case op < 7:
 			if err := histSetKeys(w, r, hs); err != nil {
 				return err
 			}
 			sig = append(sig, "K")
+		case op < 9:
+			// revoke every key: by resetting the option (value nil) or by setting an empty list
+			for _, k := range w.configured {
+				hs.retired = append(hs.retired, k.Key)
+			}
+			var err error
+			if r.Bool() {
+				err = w.resetKeys()
+				sig = append(sig, "Z")
+			} else {
+				err = w.setKeys(nil)
+				sig = append(sig, "E")
+			}
+			if err != nil {
+				return err
+			}
+			for k := 0; k < r.Range(2, 8); k++ {
+				histRequest(w, j, r, hs, targets, origins)
+			}
 		case op < 17:
 			a, b := vlib.Pick(r, permVals...), vlib.Pick(r, permVals...)
 			if r.Chance(2, 3) {
@@ -93,7 +112,8 @@ func runHistory(w *world, j *judge, seed uint64, shard, no int) error {
 			sig = append(sig, "X")
 		case op < 25:
 			if len(hs.sessions) > 0 {
-				w.resetSession(j, vlib.Pick(r, hs.sessions...))
+				var tk *tableKeys
+				w.resetSessionWith(j, vlib.Pick(r, hs.sessions...), vlib.Pick(r, resetAuthzVariants(tk)...))
 				sig = append(sig, "R")
 			}
 		case op < 28:
@@ -104,8 +124,18 @@ func runHistory(w *world, j *judge, seed uint64, shard, no int) error {
 			for k := 0; k < r.Range(2, 10); k++ {
 				histRequest(w, j, r, hs, targets, origins)
 			}
-			if err := w.setDev(false); err != nil {
+			// ... left by setting false or by resetting the option
+			var err error
+			if r.Bool() {
+				err = w.resetDev()
+			} else {
+				err = w.setDev(false)
+			}
+			if err != nil {
 				return err
+			}
+			for k := 0; k < r.Range(1, 5); k++ {
+				histRequest(w, j, r, hs, targets, origins)
 			}
 			sig = append(sig, "D")
 		default:
@@ -117,7 +147,7 @@ func runHistory(w *world, j *judge, seed uint64, shard, no int) error {
 	j.b.Count("history_steps", int64(steps))
 	j.b.DistinctS(fmt.Sprintf("history|%d|%d|%d|%s", seed, shard, no, strings.Join(sig, "")))
 	if no == 0 && shard == 0 {
-		j.b.Sample(map[string]any{"history_ops": strings.Join(sig, ""), "legend": "K=set keys (awaited) L=login X=expire sessions R=reset session D=dev-mode episode q=request"})
+		j.b.Sample(map[string]any{"history_ops": strings.Join(sig, ""), "legend": "K=set keys (awaited) Z=reset keys to default E=set empty key list L=login X=expire sessions R=reset session D=dev-mode episode q=request"})
 	}
 	return nil
 }
@@ -330,7 +360,7 @@ func runConcurrent(w *world, j *judge, cs childSpec) error {
 			} else {
 				cur = listA
 			}
-			since := w.keyEvCount()
+			mk := w.mark()
 			cfgNow := cfgStrings(cur)
 			if err := w.guarded("SetConfigOption(core/apiKeys)", func() error { return config.SetConfigOption(api.CfgAPIKeys, cfgNow) }); err != nil {
 				bgMu.Lock()
@@ -339,7 +369,9 @@ func runConcurrent(w *world, j *judge, cs childSpec) error {
 				close(wedged)
 				return
 			}
-			if !w.awaitKeys(since, cfgStrings(cur)) {
+			// (the wait also ends when nothing is running or pending any more; the clients treat
+			// the flapping keys as "either" anyway)
+			if ok, _ := w.awaitImport(mk, cfgStrings(cur)); !ok {
 				bgMu.Lock()
 				bgErr = errInconclusive("key flapper: api.keys.updated not seen within 60s")
 				bgMu.Unlock()
@@ -387,6 +419,7 @@ func runConcurrent(w *world, j *judge, cs childSpec) error {
 					}
 					mmu.Unlock()
 					rs := &reqSpec{Via: "handler", Method: "GET", Host: testHost, Path: "/api/v1/auth/reset", Cookie: cookieName + "=" + victim,
+						Authz:  vlib.Pick(cr, resetAuthzVariants(tk)...),
 						Target: mTarget{Route: "endpoint", DeclR: mAnyone, DeclW: mNotSupported}}
 					w.doConcurrent(rs)
 					mmu.Lock()
@@ -616,6 +649,11 @@ func runRevoke(w *world, j *judge, cs childSpec) error {
 			}
 			w.keyEvMu.Unlock()
 			if clean >= dirty+1 {
+				break
+			}
+			if quiescent() {
+				// no import and no clean-up is running or pending: this is the final state
+				w.b.Count("revoke_settled_by_quiescence", 1)
 				break
 			}
 			if clean >= 1 && grace.IsZero() {
